@@ -131,6 +131,8 @@ CHECKS = {
 }
 
 NOT_YET = {}
+# properties whose module exports FUZZ = {name: (check, strategy)} and runs engine.fuzz("hyp:<name>") in the thorough tier
+HYP_FUZZ = {"C02", "C04", "C05", "C06", "C08", "C09", "C10", "C13", "C18", "C20"}
 
 
 def main():
@@ -141,6 +143,8 @@ def main():
         pid = p["id"]
         if pid in CHECKS:
             tech, text, note, ref = CHECKS[pid]
+            if pid in HYP_FUZZ:
+                tech += "; thorough tier: coverage-guided atheris campaigns that drive the same structured Hypothesis generator through fuzz_one_input, oracle inside the target"
             checks.append(
                 {
                     "property_id": pid,
